@@ -20,9 +20,15 @@ __CPROVER_ensures(cv_exc_pending == 0 && QI == __CPROVER_old(QI) && gh_sp_calls 
 /* from normal code: the child runs under a freshly installed queue (install_queue_and_resume, whose contract drains it) - started exactly once */
 __CPROVER_ensures(__CPROVER_old(QI) == 0 ==> (gh_ir_calls == 1 && gh_ir_h == gh_sp_h && gh_n_resume == __CPROVER_old(gh_n_resume) && dq_npush == __CPROVER_old(dq_npush)))
 /* from a running coroutine: nested activation */
+#ifndef CV_IMPORTED_BY_C04
 __CPROVER_ensures(__CPROVER_old(QI) != 0 ==> (gh_ir_calls == 0 && gh_n_resume == __CPROVER_old(gh_n_resume) + 1))                 /* the child is started exactly once ... */
-__CPROVER_ensures((__CPROVER_old(QI) != 0 && gh_RK == __CPROVER_old(gh_n_resume)) ==> gh_res_trk == gh_sp_h)                        /* ... and it is the child */
+#else   /* C04 ("the body executes exactly once") does not care by which route: one direct resumption or one install_queue_and_resume of the child, never none, never both */
+__CPROVER_ensures(__CPROVER_old(QI) != 0 ==> ((gh_ir_calls == 0 && gh_n_resume == __CPROVER_old(gh_n_resume) + 1) || (gh_ir_calls == 1 && gh_ir_h == gh_sp_h && gh_n_resume == __CPROVER_old(gh_n_resume))))
+#endif
+__CPROVER_ensures((__CPROVER_old(QI) != 0 && gh_RK == __CPROVER_old(gh_n_resume) && gh_n_resume == __CPROVER_old(gh_n_resume) + 1) ==> gh_res_trk == gh_sp_h)   /* ... and it is the child */
+#ifndef CV_IMPORTED_BY_C04   /* the no-pre-emption clause is C05's own; C04 re-runs this unit for "the body is started exactly once, by start() itself" */
 __CPROVER_ensures((__CPROVER_old(QI) != 0 && __CPROVER_old(dq_head) < __CPROVER_old(dq_tail)) ==> dq_head == __CPROVER_old(dq_head))     /* C05-FINDING-start-nested: nothing the starter queued runs before the starter suspends or finishes */
+#endif
 ;
 void h_start_lambda(void) { START_LAM *l; PROM *p; as_start_lambda(l, p); __CPROVER_assert(0, "SENTINEL reachable"); }
 #endif
